@@ -18,7 +18,11 @@ TInit == CInit /\ l = 1 /\ TLCSet(1, 1)
 TClose == IsEvent("cl.close") /\ Close /\ Matches
 TConnClosed == IsEvent("cl.connclosed") /\ (\E w \in BOOLEAN : ConnClosed(w)) /\ Matches
 TReached == IsEvent("cl.reached") /\ Reached /\ Matches
-TSlow == IsEvent("cl.slow") /\ Slow /\ Matches
+\* the slow path found a usable connection under the lock and left everything as it was; that connection died before
+\* the state was reported at the end of the region (its closed callback comes later)
+SlowThenDie == /\ ~closed /\ live > 0 /\ Ev.live < live /\ Ev.live >= 0 /\ live' = Ev.live
+               /\ UNCHANGED <<closed, connected, disconnected, connecting, listed, attempt, orphans>>
+TSlow == IsEvent("cl.slow") /\ (Slow \/ SlowThenDie) /\ Matches
 TAttempt == IsEvent("cl.attempt") /\ Attempt /\ Matches
 TAdd == IsEvent("cl.add") /\ (\E a \in BOOLEAN : Add(a)) /\ Matches
 TTail == IsEvent("cl.tail") /\ (\E a \in BOOLEAN : Tail(a)) /\ Matches
